@@ -526,7 +526,7 @@ class Provider(ABC):                    # pylint: disable=too-many-public-method
         """
         if path:
             path = path.replace(cls.alt_sep, cls.sep) if cls.alt_sep else path
-            path = path.rstrip(cls.sep) if path != cls.sep else path
+            path = path.rstrip(cls.sep) or cls.sep      # a path made of separators only is the root
         return path
 
     def normalize_path(self, path: str, for_display: bool = False):
